@@ -863,7 +863,11 @@ func (e *encoderJsonBytes) kMapCanonical(ti *typeInfo, rv, rvv reflect.Value, ke
 			for i := range mksv {
 				e.c = containerMapKey
 				e.e.WriteMapElemKey(i == 0)
-				e.e.EncodeTime(mksv[i].v)
+				if e.h.timeBuiltin {
+					e.e.EncodeTime(mksv[i].v)
+				} else {
+					e.encodeValue(mksv[i].r, keyFn)
+				}
 				e.mapElemValue()
 				e.encodeValue(mapGet(rv, mksv[i].r, rvv, mparams), valFn)
 			}
@@ -1026,7 +1030,11 @@ func (e *encoderJsonBytes) encodeBuiltin(iv interface{}) (ok bool) {
 	case complex128:
 		e.encodeComplex128(v)
 	case time.Time:
-		e.e.EncodeTime(v)
+		if e.h.timeBuiltin {
+			e.e.EncodeTime(v)
+		} else {
+			e.encodeR(reflect.ValueOf(v))
+		}
 	case []byte:
 		e.e.EncodeBytes(v)
 	default:
@@ -2720,7 +2728,11 @@ func (d *decoderJsonBytes) decode(iv interface{}) {
 
 		d.decodeBytesInto(v[:len(v):len(v)], true)
 	case *time.Time:
-		*v = d.d.DecodeTime()
+		if d.h.timeBuiltin {
+			*v = d.d.DecodeTime()
+		} else {
+			d.decodeValue(reflect.ValueOf(v), nil)
+		}
 	case *Raw:
 		*v = d.rawBytes()
 
@@ -5054,7 +5066,11 @@ func (e *encoderJsonIO) kMapCanonical(ti *typeInfo, rv, rvv reflect.Value, keyFn
 			for i := range mksv {
 				e.c = containerMapKey
 				e.e.WriteMapElemKey(i == 0)
-				e.e.EncodeTime(mksv[i].v)
+				if e.h.timeBuiltin {
+					e.e.EncodeTime(mksv[i].v)
+				} else {
+					e.encodeValue(mksv[i].r, keyFn)
+				}
 				e.mapElemValue()
 				e.encodeValue(mapGet(rv, mksv[i].r, rvv, mparams), valFn)
 			}
@@ -5217,7 +5233,11 @@ func (e *encoderJsonIO) encodeBuiltin(iv interface{}) (ok bool) {
 	case complex128:
 		e.encodeComplex128(v)
 	case time.Time:
-		e.e.EncodeTime(v)
+		if e.h.timeBuiltin {
+			e.e.EncodeTime(v)
+		} else {
+			e.encodeR(reflect.ValueOf(v))
+		}
 	case []byte:
 		e.e.EncodeBytes(v)
 	default:
@@ -6911,7 +6931,11 @@ func (d *decoderJsonIO) decode(iv interface{}) {
 
 		d.decodeBytesInto(v[:len(v):len(v)], true)
 	case *time.Time:
-		*v = d.d.DecodeTime()
+		if d.h.timeBuiltin {
+			*v = d.d.DecodeTime()
+		} else {
+			d.decodeValue(reflect.ValueOf(v), nil)
+		}
 	case *Raw:
 		*v = d.rawBytes()
 
